@@ -272,7 +272,7 @@ end sharpness
 section examples
 
 /-- the constants the statements mention -/
-example : appendCap = 8 ∧ defaultTermCap = 10 ∧ preserveCount = 4 ∧ rerankMult = 5 := by decide
+example : defaultTermCap = 10 ∧ preserveCount = 4 := by decide  -- the two numbers the property itself names ("up to ten", "first four")
 
 /-- one action word, one target word, one word with a synonym, a stop word, with the regenerated tables -/
 def q1 : Bytes := ofStr "Compress the folders, print file!"
